@@ -97,6 +97,44 @@ BuildOutcome(decls, cfg) ==
             THEN Err("formal-type", "FindError")
        ELSE NoErr
 
+
+(***************************************************************************)
+(* The routing table of the generated shell (vocabulary of ShellRuntime):  *)
+(* one record per (port, event) of every exposed port, ports and events in *)
+(* declaration order.  Defined for models/configurations that build.       *)
+(***************************************************************************)
+RECURSIVE ConcatSeqs(_)
+ConcatSeqs(ss) == IF ss = <<>> THEN <<>> ELSE Head(ss) \o ConcatSeqs(Tail(ss))
+
+ReplyKind(decls, itf, e) ==
+  IF e.reply = <<"void">> THEN "void" ELSE IF e.reply = <<"bool">> THEN "bool" ELSE IF e.reply = <<"int">> THEN "int"
+  ELSE LET r == Resolve(decls, e.reply, itf.fqn, {"enum", "subint"}) IN IF r.r = "ok" THEN decls[r.i].kind ELSE "void"
+
+KindOf(dir, edir) == IF dir = "provides" THEN (IF edir = "in" THEN "provides-in" ELSE "provides-out")
+                     ELSE (IF edir = "in" THEN "requires-in" ELSE "requires-out")
+MechOf(dir, edir, sem, isMc) ==
+  IF sem = "STS" THEN "direct"
+  ELSE IF dir = "provides" THEN (IF edir = "in" THEN "shell" ELSE IF isMc THEN "select" ELSE "ref")
+  ELSE (IF edir = "out" THEN "post" ELSE "ref")
+
+RouteOf(decls, cfg) ==
+  LET enc == decls[CHOOSE i \in IdxFind(decls, cfg.enc, <<>>) : TRUE]
+      P == {enc.ports[k].name : k \in {j \in DOMAIN enc.ports : enc.ports[j].dir = "provides"}}
+      R == PortNames(enc.ports, "requires", FALSE)
+      f == Assignment(cfg.prov, cfg.req, P, R)
+      exposed == SelectSeq(enc.ports, LAMBDA p : p.dir = "provides" \/ ~p.inj)
+      PortRoutes(p) ==
+        LET itf == decls[Resolve(decls, p.type, Front(enc.fqn), {"interface"}).i]
+            isMc == cfg.mc.on /\ p.dir = "provides" /\ p.name = cfg.mc.port
+        IN [k \in 1..Len(itf.events) |->
+              LET e == itf.events[k] IN
+              [port |-> p.name, event |-> e.name, kind |-> KindOf(p.dir, e.dir),
+               mech |-> MechOf(p.dir, e.dir, f[p.name], isMc), sem |-> f[p.name], mc |-> isMc,
+               role |-> IF isMc /\ e.dir = "in" THEN (IF e.name = cfg.mc.claim THEN "claim" ELSE IF e.name = cfg.mc.release THEN "release" ELSE "") ELSE "",
+               dirs |-> [j \in 1..Len(e.formals) |-> e.formals[j].dir],
+               reply |-> ReplyKind(decls, itf, e)]]
+  IN ConcatSeqs([k \in 1..Len(exposed) |-> PortRoutes(exposed[k])])
+
 \* configuration objects are validated when they are constructed, before build is ever called
 ConfigRejected(cfg) == PSCRejected(cfg.prov.sts, cfg.prov.mts) \/ PSCRejected(cfg.req.sts, cfg.req.mts)
                        \/ CfgRejected(cfg.prov)
